@@ -39,6 +39,13 @@ CHECKS = {
         note="Scheduling points only inside mem_orchestrator/mem_broker/mem_state_backend (memory) or at SQL statements (SQLite); other code touches thread-local data only. Background history writers run last (explored as actors in C10). Bounds, not randomised schedules, for N up to 4. SQLite's own atomicity trusted; busy handler emulated by blocking.",
         design_ref="§2 C02",
     ),
+    "C04": dict(
+        engine="bfs+sched",
+        technique="explicit-state BFS over poll/start/finish/heartbeat/parent-report/clock-advance/recovery histories on both backends against a reference model of (pending-since, last heartbeat) with both recovery scans read out in every state + deviation-bounded schedule exploration of a real recovery task body racing the owner",
+        text="Histories: BFS to depth 4 (5) from every first operation and depth 3 (4) from seeded states (running with own heartbeat, running with parent-reported heartbeat, two held) over polls of two runners, start, finish, heartbeats, the real parent heartbeat report, advances chosen so that ages land on limit-u, limit, limit+u and timeout-u, timeout, timeout+u (dyadic, microsecond-exact clock), and the real recover_pending / recover_running task bodies; results, records, queue, history lengths and the answers of both recovery scans are compared with the model and between backends after every step (1 limit/timeout configuration in quick, 2x2 in thorough). Schedules: the recovery task body against an owner that moves one of two listed invocations on, pending and running recovery, all schedules with <= 2 (3) deviations: everything taken by recovery ends REROUTED and queued exactly once, nothing else is disturbed.",
+        note="Frozen dyadic clock (every operation takes 1/64 s) so that 'age >= limit' / 'age > timeout' are decided identically by oracle and code; each implementation keeps its own time line. Parent/child runners are represented at the heartbeat interface (process runners: C14).",
+        design_ref="§2 C04",
+    ),
     "C06": dict(
         engine="bfs+sched",
         technique="explicit-state BFS over submit/batch/poll/start/finish/fail/kill histories with parked task bodies on both backends (from the empty and from seeded non-initial states) + deviation-bounded schedule exploration of two poller+worker actors with the RUNNING-per-key invariant evaluated on the visible concrete state at every scheduling point",
